@@ -354,6 +354,18 @@ func cmdC14(c *ctx) {
 			}
 			ovs = append(ovs, ovDecl{name: "ovc", ty: tI32, id: -1, init: init, how: "absent"})
 		}
+		// and another one initialises an override by a conversion: `override ovv: u32 = u32(<i32 expression>);`
+		ovconv := i%24 == 18
+		if ovconv {
+			knob = "ovconv"
+			var arg *wexpr = lit32(tI32, uint32(int32(i/24%19-9)))
+			for k := range ovs {
+				if ovs[k].ty.k == "i32" && i/24%2 == 1 {
+					arg = &wexpr{k: "var", ty: tI32, name: ovs[k].name, konst: true}
+				}
+			}
+			ovs = append(ovs, ovDecl{name: "ovv", ty: tU32, id: -1, init: &wexpr{k: "cast", ty: tU32, args: []*wexpr{arg}}, how: "absent"})
+		}
 		arrLen := 0
 		if ovarr {
 			o := ovDecl{name: "ovn", ty: tU32, id: -1, init: lit32(tU32, uint32(1+i/24%8)), how: "absent"}
@@ -618,7 +630,7 @@ func cmdC14(c *ctx) {
 		emit(fmt.Sprintf("(c14 (expecterr %s) (ast %s) (ir %s) (inputs %s %s))", q(expectErr), ref.sexp(), dumpModule(clone), wordsSexp(0, inp), wordsSexp(1, outp)), status)
 		// the back ends' own pipeline-constant options (msl: its own substitution; glsl: ProcessOverrides on an internal
 		// clone): the emitted text, executed, must compute what the substituted reference program computes
-		if expectErr == "" && (knob == "clean" || knob == "badval" || knob == "ovarr" || knob == "ovconst") {
+		if expectErr == "" && (knob == "clean" || knob == "badval" || knob == "ovarr" || knob == "ovconst" || knob == "ovconv") {
 			for _, route := range []string{"msl", "glsl"} {
 				m2, _ := frontEnd(src)
 				if m2 == nil {
